@@ -22,14 +22,18 @@ import time
 import vlib
 
 TRACE_SET = ("openat,open,creat,mkdirat,mkdir,unlinkat,unlink,rmdir,renameat,renameat2,rename,linkat,"
-             "symlinkat,link,symlink,truncate,ftruncate,chmod,fchmodat,fchmod,chdir,fchdir")
+             "symlinkat,link,symlink,truncate,ftruncate,chmod,fchmodat,fchmod,chdir,fchdir,mknod,mknodat")
 MARK = "/VERIF-C20-MARK/"
 WRITE_FLAGS = ("O_WRONLY", "O_RDWR", "O_CREAT", "O_TRUNC", "O_APPEND", "O_TMPFILE")
 LONG300 = "L" * 300
 INV_LEX = {"nm": "name", "xf": "xfile", "xd": "xdir", LONG300: "long", "bs\\..\\..\\w": "bslash", "victim": "victim",
            "pwned.txt": "pwn", "out2": "sib2", "out.bak": "sibbak", "out-evil": "sibdir", "output.txt": "sibtxt"}
 SIB = ("sib2", "sibbak", "sibdir", "sibtxt")
-HEX64 = re.compile(r"^[0-9a-f]{64}$")
+HEX64 = re.compile(r"^([0-9a-f]{64}|[0-9a-f]{128})$")
+FIELDS = ("ep", "segs", "lead", "trail", "unpack", "strip", "ents", "op", "h", "place", "wm", "chk", "opt", "odir", "comp", "hdr", "pos")
+DIMS_OF = {"art": ("odir", "comp", "hdr", "pos"), "tar": ("odir", "comp", "hdr"), "lnk": ("odir", "comp", "hdr"),
+           "imp": ("odir", "comp", "hdr"), "lay": ("odir",)}
+DEFAULT_DIMS = {"odir": "abs", "comp": "none", "hdr": "pax", "pos": "only"}
 
 
 # ---------------------------------------------------------------------------- strace parsing
@@ -71,6 +75,7 @@ CALLS = {
     "renameat": ([(0, 1), (2, 3)], False), "renameat2": ([(0, 1), (2, 3)], False), "rename": ([(None, 0), (None, 1)], False),
     "linkat": ([(0, 1), (2, 3)], False), "link": ([(None, 0), (None, 1)], False),
     "symlinkat": ([(1, 2)], False), "symlink": ([(None, 1)], False),
+    "mknodat": ([(0, 1)], False), "mknod": ([(None, 0)], False),
     "truncate": ([(None, 0)], True), "chmod": ([(None, 0)], True), "fchmodat": ([(0, 1)], True), "creat": ([(None, 0)], True),
 }
 
@@ -249,9 +254,14 @@ def events_for_chunk(args):
         s = scn_by_id[sid]
         if fa.get("skipped"):
             raise vlib.ToolError("driver skipped scenario %d: %s" % (sid, fa["skipped"]))
-        allow = [lex_segs(os.path.realpath(a)) for a in fa["allow"]]
+        # the designated directory as the kernel sees it and as it was spelled (they differ when a parent is a link)
+        allow = []
+        for a in fa["allow"]:
+            for form in (lex_segs(os.path.realpath(a)), lex_segs(a)):
+                if form not in allow:
+                    allow.append(form)
         hdr = {"ev": "scn", "n": sid, "allow": allow}
-        for k in ("ep", "segs", "lead", "trail", "unpack", "strip", "ents", "op", "h", "place", "wm", "chk"):
+        for k in FIELDS:
             hdr[k] = s[k]
         lines.append(hdr)
         evs = per.get(sid, [])
@@ -297,6 +307,14 @@ def strace_usable(ctx):
     return True, ""
 
 
+def dummy_scn(allow):
+    """a scenario header that only ends the previous scenario (scan logs, harness-tree facts)"""
+    h = {"ev": "scn", "n": 0, "allow": allow, "ep": "-", "segs": [], "lead": 0, "trail": 0, "unpack": 0, "strip": 0, "ents": [],
+         "op": "-", "h": "-", "place": "-", "wm": "-", "chk": 0, "opt": "-"}
+    h.update(DEFAULT_DIMS)
+    return h
+
+
 def sig_of(s, detail):
     cls = detail.split(":")[0]
     if s["ep"] == "lay":
@@ -338,10 +356,11 @@ def run(ctx):
     th = threading.Thread(target=mc)
     th.start()
 
-    with concurrent.futures.ThreadPoolExecutor(max_workers=5) as ex:
+    with concurrent.futures.ThreadPoolExecutor(max_workers=6) as ex:
         f_gen = ex.submit(ctx.tlc_scenarios, "PathSafeGen", "C20_gen.cfg" if ctx.thorough else "C20_gen_quick.cfg", workers=4,
                           label="scenario space of PathSafe", timeout=1500)
         f_links = ex.submit(ctx.tlc_scenarios, "PathSafeGen", "C20_gen_links.cfg", workers=2, label="link archives, verdict if materialised")
+        f_dims = ex.submit(ctx.tlc_scenarios, "PathSafeGen", "C20_gen_dims.cfg", workers=1, label="secondary input dimensions")
         f_lay = ex.submit(ctx.tlc_scenarios, "PathSafeGen", "C20_gen_lay.cfg", workers=2,
                           label="layout scenarios, verdict of the model of the code")
         f_asis = ex.submit(ctx.tlc_scenarios, "PathSafeGen", "C20_gen_lay_asis.cfg", workers=2,
@@ -350,6 +369,10 @@ def run(ctx):
                           label="link archives, verdict if materialised behind a lexical guard")
         gen, raw_links, asis, lex_links, lay = f_gen.result(), f_links.result(), f_asis.result(), f_lex.result(), f_lay.result()
     space = gen["scenarios"]
+    combos = [{k: d[k] for k in DEFAULT_DIMS} for d in f_dims.result()["scenarios"]]
+    combos.sort(key=lambda d: json.dumps(d, sort_keys=True))
+    if len(combos) < 90:
+        raise vlib.ToolError("secondary dimension space too small: %d" % len(combos))
     vlib.log("C20: %d scenarios generated at %.0fs" % (len(space), time.time() - ctx.t0))
     dangerous = {json.dumps(s["ents"], sort_keys=True) for s in raw_links["scenarios"] if s["esc"] == 1}
     subtle = {json.dumps(s["ents"], sort_keys=True) for s in lex_links["scenarios"] if s["esc"] == 1}
@@ -392,6 +415,43 @@ def run(ctx):
         chosen += must_have + vlib.sample(rng, chains, 250) + vlib.sample(rng, [s for s in by["lnk"] if key(s) not in dangerous], n_lnk)
     imp_sib = [s for s in by["imp"] if any(c in SIB for c in s["segs"]) and s["lead"] == 0 and s["trail"] == 0]
     chosen += imp_sib + vlib.sample(rng, [s for s in by["imp"] if s not in imp_sib], n_imp)
+    rng.shuffle(chosen)
+    # ---- secondary dimensions (spelling of the designated directory, compression, tar header format, layer position):
+    # every scenario gets one combination of SecondaryDims (cycling through a seeded shuffle: each value of each dimension
+    # and each pair of values meets many different names); the core scenarios additionally meet every spelling (quick)
+    # or the whole product (thorough)
+    rng.shuffle(combos)
+    for i, s in enumerate(chosen):
+        c = combos[i % len(combos)]
+        for k in DIMS_OF[s["ep"]]:
+            s[k] = c[k]
+
+    def plain(s):
+        return s["lead"] == 0 and s["trail"] == 0 and (len(s["segs"]) <= 1 or (len(s["segs"]) == 2 and s["segs"][1] in SIB))
+    core = [s for s in chosen if (s["ep"] in ("art", "tar") and plain(s) and s["place"] == "-") or
+            (s["ep"] == "lay" and (ctx.thorough or (s["op"] in ("BlobDelete", "BlobPut", "ManifestDelete", "ManifestPut") and
+                                                    s["h"] in ("dd_enc", "dd_alg", "dd_enc5"))))]
+    extra = []
+    seen_variant = set()
+    for s in core:
+        dims = DIMS_OF[s["ep"]]
+        if ctx.thorough:
+            variants = {tuple(c[k] for k in dims) for c in combos}
+        else:
+            variants = {tuple(v if k == "odir" else DEFAULT_DIMS[k] for k in dims) for v in ("abs", "rel", "dot", "slash", "vialink")}
+            variants |= {tuple(v if k == d else DEFAULT_DIMS[k] for k in dims) for d in dims for v in {c[d] for c in combos}}
+        base = {k: v for k, v in s.items() if k not in DEFAULT_DIMS and k != "id"}
+        for v in sorted(variants):
+            if v == tuple(s[k] for k in dims):
+                continue
+            key2 = (json.dumps(base, sort_keys=True), v)
+            if key2 in seen_variant:
+                continue
+            seen_variant.add(key2)
+            t = dict(s)
+            t.update(dict(zip(dims, v)))
+            extra.append(t)
+    chosen += extra
     rng.shuffle(chosen)
     for i, s in enumerate(chosen):
         s["id"] = i + 1
@@ -469,8 +529,7 @@ def run(ctx):
         merged[i % nlogs] += b["lines"]
     for i, raw in enumerate(merged):
         if i == 0 and stray:
-            raw.append({"ev": "scn", "n": 0, "allow": [lex_segs(tree_root) + ["w0"]], "ep": "-", "segs": [], "lead": 0, "trail": 0,
-                        "unpack": 0, "strip": 0, "ents": [], "op": "-", "h": "-", "place": "-", "wm": "-", "chk": 0})
+            raw.append(dummy_scn([lex_segs(tree_root) + ["w0"]]))
             for x in stray:
                 raw.append({"ev": "chg", "n": 0, "what": "new", "path": lex_segs(tree_root) + [x]})
         lines = [{k: v for k, v in e.items() if k != "raw"} for e in raw]
@@ -524,8 +583,7 @@ def run(ctx):
         if not rest:
             return out, st, tr, drift, 1
         scan = log + ".scan"
-        write_log(scan, rest + [{"ev": "scn", "n": 0, "allow": [["-"]], "ep": "-", "segs": [], "lead": 0, "trail": 0, "unpack": 0,
-                                 "strip": 0, "ents": [], "op": "-", "h": "-", "place": "-", "wm": "-", "chk": 0}])
+        write_log(scan, rest + [dummy_scn([["-"]])])
         v2 = ctx.validate("PathSafeTrace", "C20_trace_scan.cfg", scan, timeout=3000)
         st += v2["distinct"]
         tr += v2["generated"]
@@ -599,8 +657,9 @@ def run(ctx):
             hostile = bytes.fromhex(fa["input"]).decode("utf-8", "replace")
             where = e.get("raw") or "/" + "/".join(e.get("phys") or e.get("path") or [])
             what = "%s [%s %s on %r; designated %s]" % (detail, e["ev"], e.get("call", e.get("what", "")), where, fa["out"])
-            scn_small = {k: s[k] for k in ("ep", "segs", "lead", "trail", "unpack", "strip", "ents", "op", "h", "place", "wm", "chk")}
-            ctx.report(sig_of(s, detail), "%s; hostile input %r" % (what, hostile[:120]),
+            scn_small = {k: s[k] for k in FIELDS}
+            dims = " ".join("%s=%s" % (k, s[k]) for k in DIMS_OF[s["ep"]] if s[k] != DEFAULT_DIMS[k]) or "default dimensions"
+            ctx.report(sig_of(s, detail), "%s; hostile input %r; %s" % (what, hostile[:120], dims),
                        {"scenario": scn_small, "hostile_input": hostile[:400], "rejected_event": e, "error_returned": fa["err"],
                         "designated": fa["out"], "facts_of_scenario": same[:40], "rejected_by": how})
     # agreement of the model of the code with the real code on layout scenarios (information, not a verdict); escapes the
@@ -659,7 +718,7 @@ def run(ctx):
     samples = []
     for ep in ("art", "lnk", "lay"):
         s = next(x for x in chosen if x["ep"] == ep)
-        samples.append({"scenario": {k: s[k] for k in ("ep", "segs", "lead", "trail", "unpack", "strip", "ents", "op", "h", "place", "wm")},
+        samples.append({"scenario": {k: s[k] for k in FIELDS},
                         "hostile_input": bytes.fromhex(all_facts[s["id"]]["input"]).decode("utf-8", "replace")[:200],
                         "error_returned": all_facts[s["id"]]["err"][:160]})
     cov = {
